@@ -39,7 +39,7 @@ PROPS["C19"] = {
     "design_ref": "DESIGN.md section 5, C19",
 }
 PROPS["C16"] = {
-    "units": {"kani": ["c16_serialization", "c16_pack", "c10_bytes"], "polyvc": ["c11_bls"]},
+    "units": {"kani": ["c16_serialization", "c16_pack", "c10_bytes", "c16_arch_columns"], "polyvc": ["c11_bls"]},
     "scope": "pure-Rust byte decoders: the automaton Serialize::deserialize family, pack/unpack of selector bytes, and (shared with C10) the canonical-field-encoding decoders",
     "not_decided": ["VerifyingKey::read_from_cs, ZkStdLibArch::read (bincode), ZkStdLib::configure, ParamsKZG::read_custom, IR loading: generic / iterator / FFI code",
                     "the out-of-range column-count and fixed-commitment-count panics described in the property text are NOT reachable by this family here",
